@@ -23,6 +23,16 @@ def cases(tier, seed):
     for i in range(n):
         kind, R = reg(rng)
         yield {'kind': 'cfg', 'G': C.to_json(rng.choice(pool)), 'R': F.to_json(R), 'as': kind}
+    # terminals that are not lower-case strings (capitalised, ints): the automaton is asked about Terminal.value, not about a rendering of it
+    rng3 = random.Random(seed * 104729 + 5)
+    for i in range(n // 5):
+        kind, R = reg(rng3); ren = rng3.choice([{'a': 'A', 'b': 'Bb', 'c': 'C'}, {'a': 0, 'b': 1, 'c': 2}, {'a': 'A', 'b': 1, 'c': 'c'}])
+        g = rng3.choice(pool); g2 = C.mk(g[0], [(h, tuple(C.T(ren.get(x[1], x[1])) if not C.is_var(x) else x for x in b)) for h, b in g[1]])
+        R2 = F.mk(R[0], {ren.get(x, x) for x in R[1]}, R[2], R[3], {(p_, (ren.get(a_, a_) if a_ is not None else None), q_) for p_, a_, q_ in R[4]})
+        yield {'kind': 'cfg', 'G': C.to_json(g2), 'R': F.to_json(R2), 'as': kind}
+    # the triple-variable converter on its own: many states / symbols (two-digit indices), every triple, twice
+    for i in range(6 if tier == 'quick' else 30):
+        yield {'kind': 'converter', 'n_states': rng3.choice([2, 5, 11, 13, 14]), 'n_symbols': rng3.choice([1, 2, 3, 11, 12]), 'shuffle': rng3.randrange(1000)}
     for i in range(n // 3):
         # two automata over the SAME State objects (or one automaton extended between two intersections)
         R = F.random_dfa(rng, rng.choice([1, 2]), ['a', 'b']); R2 = F.random_dfa(rng, rng.choice([2, 3]), ['a', 'b'])
@@ -35,10 +45,19 @@ def cases(tier, seed):
             Pp = P.mk(ren[Pp[0]], Pp[1], [ren[f] for f in Pp[2]], [(ren[a_], b_, c_, ren[d_], e_) for a_, b_, c_, d_, e_ in Pp[3]])
             yield {'kind': 'pda', 'P': P.to_json(Pp), 'R': F.to_json(R), 'as': kind}; continue
         yield {'kind': 'pda', 'P': P.to_json(P.random_pda(rng, reserved=0.05)), 'R': F.to_json(R), 'as': kind}
+    # finite-control PDAs (the stack is never changed): 4 states, 3 letters, epsilon moves - many pairs of the product are reached late, through another pair
+    rng2 = random.Random(seed * 7919 + 31)
+    for i in range(n // 3):
+        E = F.random_enfa(rng2, 4, ['a', 'b', 'c'], eps=True)
+        starts = sorted(E[2], key=repr) or sorted(E[0], key=repr)
+        Pp = P.mk(f'p{starts[0]}', 'Z', [f'p{f}' for f in E[3]], [(f'p{a_}', b_, 'Z', f'p{c_}', ('Z',)) for a_, b_, c_ in E[4]])
+        R = F.random_dfa(rng2, 3, ['a', 'b', 'c'], total_p=0.6)
+        yield {'kind': 'pda', 'P': P.to_json(Pp), 'R': F.to_json(fa_gen.rename(R, 'str')), 'as': rng2.choice(['DFA', 'DFA', 'NFA', 'ENFA'])}
 
 
 def check(case):
     if case['kind'] == 'types': return K.c11_types(), True, 1
+    if case['kind'] == 'converter': return K.c11_converter(case['n_states'], case['n_symbols'], case['shuffle']), case['n_states'] >= 11, 1
     if case['kind'] == 'shared': return K.c11_shared_states(C.from_json(case['G']), F.from_json(case['R']), F.from_json(case['R2'])), True, 1
     R = F.from_json(case['R'])
     if case['kind'] == 'cfg':
